@@ -60,7 +60,11 @@ func (c *SubscriptionManager) AddSubscription(remoteDevice api.DeviceRemoteInter
 	defer c.mux.Unlock()
 
 	for _, item := range c.subscriptionEntries {
-		if reflect.DeepEqual(item.ServerFeature, serverFeature) && reflect.DeepEqual(item.ClientFeature, clientFeature) {
+		// compare the address of the client feature, the feature objects of a remote
+		// device are replaced whenever its entity is announced again
+		if reflect.DeepEqual(item.ServerFeature, serverFeature) &&
+			item.ClientFeature.Device().Ski() == remoteDevice.Ski() &&
+			reflect.DeepEqual(item.ClientFeature.Address(), clientFeature.Address()) {
 			return fmt.Errorf("requested subscription is already present")
 		}
 	}
